@@ -25,6 +25,8 @@ TARGETS = [
     'DetachedServer.handle_message#CLIENT.DISCONNECT',
     'ServerBase.broadcast',
     'Manager.handle_message#ABOVE.CANCEL',
+    'Manager.handle_message#BELOW.CANCEL',
+    'DetachedServer.handle_message#BELOW.CANCEL',
 ]
 
 
@@ -57,6 +59,8 @@ def setup(repo: str) -> tuple[Program, list[str]]:
         ],
         raises=[],
     ))
+    from contracts.dispatch import add_dispatch
+    add_dispatch(p)
     return p, [t for t in TARGETS if t in p.contracts]
 
 
@@ -76,4 +80,6 @@ def bounded(tier: str) -> dict:
             }
             yield sc
     gens['Manager.handle_message#ABOVE.CANCEL'] = manager_cancel
+    from contracts.dispatch import bounded_dispatch
+    gens.update(bounded_dispatch(tier))
     return {t: gens[t] for t in TARGETS if t in gens}
